@@ -288,7 +288,7 @@ def derive_events(data, max_dies=40, iterators=True, scramble=True, light=False,
         if i < 10:
             ev.append(('section', i))
         names.append(s.name)
-    for n in sorted(set(names))[:5 if not light else 3]:
+    for n in sorted(set(names))[:5 if not light else 3] + [n for n in names if n == '.unwind_like']:
         ev += [('section_by_name', n), ('section_index', n)]
     ev += [('section_by_name', '.absent'), ('has_section', '.absent'), ('has_section', names[-1] if names else '.x')]
     for i in range(min(elf.num_segments(), 4)):
@@ -407,16 +407,22 @@ def derive_events(data, max_dies=40, iterators=True, scramble=True, light=False,
     return ev
 
 
+def _machine_specific():
+    """content whose decoding depends on the file's own machine: a section type in the processor range (SHT_X86_64_UNWIND here, SHT_ARM_EXIDX for the foreign file)"""
+    from mcx import elfgen as eg
+    return [eg.Sec('.unwind_like', 0x70000001, data=b'\0' * 16, flags=2, addr=0x404000, align=4)]
+
+
 def model_file(kind):
     if kind in ('M0', 'M0n'):
         secs, meta = payloads.make('m0', True, 32, 8)
         data, _ = elfwrap.wrap(secs, 64, True, with_symbols=True, addresses=meta['addresses'])
     elif kind == 'M1':
         secs, meta = payloads.make('m1', True, 32, 8)
-        data, _ = elfwrap.wrap(secs, 64, True, with_symbols=True, with_dynamic=True, with_notes=True, addresses=meta['addresses'])
+        data, _ = elfwrap.wrap(secs, 64, True, with_symbols=True, with_dynamic=True, with_notes=True, addresses=meta['addresses'], extra=_machine_specific())
     else:
         secs, meta = payloads.make('m1', False, 64, 4)
-        data, _ = elfwrap.wrap(secs, 32, False, with_symbols=True, with_dynamic=True, with_notes=True, addresses=meta['addresses'])
+        data, _ = elfwrap.wrap(secs, 32, False, with_symbols=True, with_dynamic=True, with_notes=True, addresses=meta['addresses'], extra=_machine_specific())
     return data
 
 
@@ -493,7 +499,7 @@ def explore_unit(system, pass_, depth, tier, deadline):
         pass
     # the foreign file: same shapes, different contents at the same offsets
     fsecs, fmeta = payloads.make('m1' if system in ('M0', 'M0n') else 'm0', data[5] == 1, 32, 8 if data[4] == 2 else 4)
-    _FOREIGN['data'] = elfwrap.wrap(fsecs, 64 if data[4] == 2 else 32, data[5] == 1, with_symbols=True, seed=77, addresses=fmeta['addresses'])[0]
+    _FOREIGN['data'] = elfwrap.wrap(fsecs, 64 if data[4] == 2 else 32, data[5] == 1, with_symbols=True, seed=77, addresses=fmeta['addresses'], machine=40, etype=4)[0]      # another machine and file type: per-file decoding tables must not be shared
     model = C10Model(system, data, events)
     if pass_ == 'C':
         alphabet, hs = interleaving_family(events, all_iters, pairs=not light)
@@ -564,7 +570,7 @@ def custom_replay(doc):
         data = model_file('M0' if system == 'M0n' else system)
     hist = [tuple(e) for e in doc['history']]
     fsecs, fmeta = payloads.make('m1' if system in ('M0', 'M0n') else 'm0', data[5] == 1, 32, 8 if data[4] == 2 else 4)
-    _FOREIGN['data'] = elfwrap.wrap(fsecs, 64 if data[4] == 2 else 32, data[5] == 1, with_symbols=True, seed=77, addresses=fmeta['addresses'])[0]
+    _FOREIGN['data'] = elfwrap.wrap(fsecs, 64 if data[4] == 2 else 32, data[5] == 1, with_symbols=True, seed=77, addresses=fmeta['addresses'], machine=40, etype=4)[0]      # another machine and file type: per-file decoding tables must not be shared
     model = C10Model(system, data, [])
     model.precompute([e for e in hist])
     w, res = H.replay(model, hist, doc['pass'] == 'B')
